@@ -15,6 +15,7 @@ require (
 	github.com/prometheus/client_model v0.6.0
 	golang.org/x/crypto v0.32.0
 	golang.org/x/oauth2 v0.18.0
+	golang.org/x/sync v0.10.0
 	google.golang.org/grpc v1.62.1
 )
 
@@ -46,7 +47,6 @@ require (
 	github.com/prometheus/common v0.50.0 // indirect
 	github.com/prometheus/procfs v0.13.0 // indirect
 	golang.org/x/net v0.23.0 // indirect
-	golang.org/x/sync v0.10.0 // indirect
 	golang.org/x/sys v0.29.0 // indirect
 	golang.org/x/text v0.21.0 // indirect
 	google.golang.org/appengine v1.6.8 // indirect
